@@ -65,7 +65,7 @@ def build(case):
             tg = [dims[case["perm"][0] % 2], dims[1 - case["perm"][0] % 2]]
         mapping = {labels[c]: tg[c] for c in range(k)}
         if not case["use_vdims_arg"]:
-            kw["vdim_mapping"] = mapping
+            kw["vdim_mapping"] = gen.shuffled_mapping(mapping, case["seed"])
         else:
             kw["vdim_mapping"] = {}
         for c in range(k):
@@ -324,6 +324,99 @@ def check_plot(case):
         plt.close("all")
 
 
+@st.composite
+def sequence_case(draw):
+    """two plots in a row: shared keyword dictionaries, and a validity mask edited in place between the plots"""
+    g = draw(gen.geom(ndim=2, nmin=2, nmax=5, exps=(-9, 3), big_offsets=False, tol=False, units=False))
+    return {"g": g, "k": draw(st.sampled_from([1, 3])), "seed": draw(st.integers(0, 2**31)),
+            "mask1": draw(gen.mask_spec(2, allow_all=False)), "mask2": draw(gen.mask_spec(2, allow_all=False)),
+            "kind": draw(st.sampled_from(["mpl", "scalar", "vector", "contour", "lightness"])),
+            "scenario": draw(st.sampled_from(["shared-kw", "inplace-valid"]))}
+
+
+def drawn_cells(ax, n, kind):
+    """(n0, n1) bool: which cells the first image / quiver of the axes shows"""
+    from matplotlib.quiver import Quiver
+
+    if kind == "vector":
+        q = [c for c in ax.collections if isinstance(c, Quiver)][0]
+        um = np.ma.getmaskarray(np.ma.masked_invalid(q.U)) | (np.asarray(q.Umask) if np.ndim(q.Umask) else False)
+        return ~np.asarray(um, dtype=bool).reshape(n[1], n[0]).T
+    im = ax.images[0]
+    a = np.asarray(im.get_array())
+    if a.ndim == 3:
+        return (a[..., 3] > 0).T
+    return ~np.ma.getmaskarray(np.ma.masked_invalid(np.ma.asarray(im.get_array(), dtype=float))).T
+
+
+def check_sequence(case):
+    import matplotlib
+
+    matplotlib.use("Agg")
+    import matplotlib.pyplot as plt
+
+    import discretisedfield as df
+
+    g = case["g"]
+    n = tuple(g["n"])
+    k, kind = case["k"], case["kind"]
+    if kind in ("scalar", "contour") and k != 1:
+        kind = "mpl"
+    if kind == "vector" and k == 1:
+        kind = "scalar"
+    mesh = gen.build_mesh(g)
+    arr = gen.make_array(case["seed"], (*n, k), "int") + 0.5
+    m1, m2 = gen.make_mask(case["mask1"], n), gen.make_mask(case["mask2"], n)
+    if np.array_equal(m1, m2) or kind == "contour":
+        # contour plots have no per-cell artist to inspect here
+        if kind == "contour":
+            kind = "scalar"
+        if np.array_equal(m1, m2):
+            m2 = ~m1 if (~m1).any() else m1
+    kw = {"vdim_mapping": {"x": gen.dims_of(g)[0], "y": gen.dims_of(g)[1], "z": None}} if k == 3 else {}
+    tag(case["scenario"])
+    tag(kind)
+
+    def plot(field, ax, shared):
+        if kind == "mpl":
+            field.mpl(ax=ax, scalar_kw=shared["scalar_kw"], vector_kw=shared["vector_kw"])
+        elif kind == "scalar":
+            field.mpl.scalar(ax=ax, **shared["plain"])
+        elif kind == "vector":
+            field.mpl.vector(ax=ax, **shared["plain"])
+        else:
+            field.mpl.lightness(ax=ax, **shared["plain"])
+
+    try:
+        shared = {"scalar_kw": {}, "vector_kw": {}, "plain": {}}
+        if case["scenario"] == "shared-kw":
+            f1 = df.Field(mesh, nvdim=k, value=arr, valid=m1, **kw)
+            f2 = df.Field(mesh, nvdim=k, value=arr, valid=m2, **kw)
+            fig1, ax1 = plt.subplots()
+            plot(f1, ax1, shared)
+            fig2, ax2 = plt.subplots()
+            plot(f2, ax2, shared)  # the very same keyword dictionaries
+            got = drawn_cells(ax2, n, "vector" if kind == "vector" else "image")
+            if not np.array_equal(got, m2):
+                raise Violation("second-plot-uses-first-mask", f"{kind}: reusing the keyword dictionaries of an earlier plot "
+                                                               f"changes which cells are drawn ({int(np.sum(got != m2))} cells)")
+            require(shared["scalar_kw"] == {} and shared["vector_kw"] == {} and shared["plain"] == {}, "caller-kwargs-modified",
+                    f"{shared}")
+        else:
+            f1 = df.Field(mesh, nvdim=k, value=arr, valid=m1.copy(), **kw)
+            fig1, ax1 = plt.subplots()
+            plot(f1, ax1, shared)
+            f1.valid[...] = m2  # in-place edit of the mask
+            fig2, ax2 = plt.subplots()
+            plot(f1, ax2, {"scalar_kw": {}, "vector_kw": {}, "plain": {}})
+            got = drawn_cells(ax2, n, "vector" if kind == "vector" else "image")
+            if not np.array_equal(got, m2):
+                raise Violation("plot-uses-stale-validity", f"{kind}: after editing field.valid in place the plot still hides "
+                                                            f"the old cells ({int(np.sum(got != m2))} cells differ)")
+    finally:
+        plt.close("all")
+
+
 def enum_refuse(tier):
     for k in ["ndim3", "ndim1", "scalar-of-vector", "contour-of-vector", "vector-of-scalar", "vector-no-mapping", "mpl-nvdim4",
               "filter-nvdim", "filter-ndim", "color-nvdim", "lightness-nvdim4", "vector-vdims-length"]:
@@ -371,5 +464,6 @@ def check_refuse(case):
 
 SUBS = [
     Sub("plot", check_plot, plot_case(), nontrivial=nontrivial, quick=220, thorough=2500),
+    Sub("sequence", check_sequence, sequence_case(), quick=80, thorough=800),
     Sub("refuse", check_refuse, enum=enum_refuse),
 ]
